@@ -7,6 +7,7 @@
 #include <sys/stat.h>
 #include <fcntl.h>
 #include "vtrace.h"
+#include "galloc.h"
 
 #define NN 3
 static char names[NN + 1][256]; static const char *root; static PDir *cur[3];
@@ -40,6 +41,7 @@ int main (int argc, char **argv) {
 	in = fopen (argv[1], "r"); if (!in) return 2;
 	vt_open (argv[2]);
 	p_libsys_init (); p_libsys_shutdown (); p_libsys_init ();
+	if (!ga_install ()) return 2;      /* fresh memory is garbage, released memory is overwritten (galloc.h) */
 	mkdir (root, 0777);
 	while (fgets (line, sizeof line, in)) {
 		PError *e = NULL; pboolean ok;
@@ -115,6 +117,7 @@ int main (int argc, char **argv) {
 		else vt_die ("bad op");
 	}
 	wipe (); rmdir (root);
+	p_mem_restore_vtable ();
 	p_libsys_shutdown ();
 	vt_close ();
 	return 0;
